@@ -2,6 +2,7 @@ package checks
 
 import (
 	"sort"
+	"strings"
 )
 
 // A catalogue of template programs, one per feature, shared by C09, C10, C12, C15, C16.
@@ -117,6 +118,12 @@ var CatalogFiles = Files{
 	"layouts/cat_broken.vuego":  "<div><section v-html=\"content\"></section>{{ canary | nosuch3 }}</div>",
 }
 
+func init() {
+	// programs at the edges of size: 150 nested elements, 400 siblings
+	CatalogFiles["p_deep.vuego"] = `<header>{{ canary }}</header>` + strings.Repeat("<div>", 150) + `<p>{{ title }}</p><p>{{ canary }}</p>` + strings.Repeat("</div>", 150) + `<footer>{{ n }}</footer>`
+	CatalogFiles["p_wide.vuego"] = `<ul>` + strings.Repeat(`<li :title="color">{{ canary }}</li>`, 400) + `</ul>`
+}
+
 var Catalog = func() []Program {
 	d := catData(nil)
 	ps := []Program{
@@ -139,6 +146,8 @@ var Catalog = func() []Program {
 		{Name: "fm", Page: "p_fm.vuego", Data: d, HasFM: true},
 		{Name: "fmcount", Page: "p_fmcount.vuego", Data: d, HasFM: true},
 		{Name: "once", Page: "p_once.vuego", Data: d},
+		{Name: "deep", Page: "p_deep.vuego", Data: d},
+		{Name: "wide", Page: "p_wide.vuego", Data: d},
 		{Name: "html", Page: "p_html.vuego", Data: d},
 		{Name: "tmpl", Page: "p_tmpl.vuego", Data: d},
 		{Name: "pre", Page: "p_pre.vuego", Data: d},
